@@ -13,6 +13,8 @@ visible in the shape of one function each, on every path:
  R-OBS-RST      "after a Reset in reply to a notification no further notification is sent": in the RST arm of coap_dispatch()
                 a matching queue node leads to coap_cancel() (which removes the observer by token), on every path.
 """
+import collections
+from core.facts import AnalysisBroken
 from core.prog import strip, walk, ap, key, short, const_int
 from core.psts import Env, solve, relevance, apply_generic
 
@@ -615,3 +617,46 @@ def run_fail_count(run, P, field='fail_cnt'):
         run.instance('R-OBS-RST', '%s: %s is stepped before it is compared with the limit' % (name, field))
         solve(f, Env(), on_event, None, keys, R, key_fn=lambda e: e.ts.get('stepped'), on_branch=on_branch)
     run.require_count(n >= 1 or run.fixture_mode or run.cfg != 'base', 'R-OBS-RST(failure count): no test of %s found (expected coap_remove_failed_observers)' % field)
+
+
+def run_counter_owner(run, P, rec='coap_subscription_t', field='non_cnt'):
+    """R-OBS-CON (who may write the run counter): the length of the current run of Non-confirmable notifications is judged in the
+    function(s) whose conditions read `->non_cnt` (computed: the deciders).  Every write of the field lies in a decider or in a
+    function all of whose callers are deciders (a helper split out of one): a reset anywhere else - on an ACK, on a refreshed
+    registration - restarts the run without a Confirmable having been sent, and the "at least every sixth" bound is gone."""
+    run.rule('R-OBS-CON')
+    def is_f(x):
+        x = strip(x)
+        return isinstance(x, dict) and x.get('k') == 'mem' and x.get('f') == field and x.get('rec') == rec
+    deciders, writers = set(), collections.defaultdict(list)
+    for f in P.lib_funcs():
+        for b in f['blocks']:
+            c = (b.get('term') or {}).get('cond')
+            if c is not None and any(is_f(y) for y in walk(c)):
+                deciders.add(f['name'])
+        for b, ev in P.events(f):
+            t = ev['e']
+            if (t.get('k') == 'asg' and is_f(t['l'])) or (t.get('k') == 'un' and t.get('op') in ('++', '--') and is_f(t.get('e'))):
+                writers[f['name']].append(ev)
+    if not deciders or not any(w in deciders for w in writers):
+        raise AnalysisBroken('R-OBS-CON (run counter owner): no function both judges and writes %s.%s' % (rec, field))
+    ok_fns = set(deciders)
+    changed = True
+    while changed:
+        changed = False
+        for w in writers:
+            if w not in ok_fns:
+                cs = P.callers(w)
+                if cs and all(c in ok_fns for c in cs) and P.funcs[w].get('static'):
+                    ok_fns.add(w)
+                    changed = True
+    for w, evs in sorted(writers.items()):
+        for ev in evs:
+            run.instance('R-OBS-CON', '%s: writes %s' % (w, short(ev['e'])))
+            ok = w in ok_fns
+            run.oblige('R-OBS-CON', ok, '%s:run-counter-writer' % w)
+            if not ok:
+                run.violation('R-OBS-CON', w, ev['loc'], 'run-counter-written-outside-decider:%s' % field,
+                              '`%s` changes the count of consecutive Non-confirmable notifications in %s(), which neither chooses the message type nor is a helper of the '
+                              'function that does (%s): the run restarts although no Confirmable notification was sent, so an observer can be sent Non-confirmables for ever' % (
+                                  short(ev['e']), w, ', '.join(sorted(deciders))))
